@@ -21,7 +21,7 @@ Where the full statement is false of the code as it is, it is kept as a `def …
 Prop`, with the strongest `_partial` theorem (explicit side conditions) and a
 `_counterexample` from a concrete witness.  Helper lemmas live in
 CtyModel/Lemmas/{CoversBasic,CoversWeaken,OpsLogic,OpsCompare,OpsArith,OpsColl,
-OpsEquals,OpsIncludes,OpsAddSub,OpsDerived,OpsSets,OpsMul,OpsKnown}.lean.
+OpsEquals,OpsIncludes,OpsAddSub,OpsDerived,OpsSets,OpsMul,OpsKnown,d01Ext,d01Round,d01Arith,d01Range,d01Mul,d01Side,d01Has,d01Len,d01EqObj,d01Fuel}.lean.
 -/
 import CtyModel.Lemmas.OpsEquals
 import CtyModel.Lemmas.OpsIncludes
@@ -29,6 +29,12 @@ import CtyModel.Lemmas.OpsAddSub
 import CtyModel.Lemmas.OpsDerived
 import CtyModel.Lemmas.OpsSets
 import CtyModel.Lemmas.OpsMul
+import CtyModel.Lemmas.d01Mul
+import CtyModel.Lemmas.d01Side
+import CtyModel.Lemmas.d01Has
+import CtyModel.Lemmas.d01Len
+import CtyModel.Lemmas.d01EqObj
+import CtyModel.Lemmas.d01Fuel
 namespace CtyModel
 namespace C01
 open Value
@@ -176,6 +182,26 @@ theorem sound_greaterThan : Sound₂ Value.greaterThan := sound_binMarks greater
 theorem sound_neg : Sound₁ Value.neg := sound_unMarks negU_sound.toW
 theorem sound_abs : Sound₁ Value.abs := sound_unMarks absU_sound.toW
 
+/-- What the code returns for an unknown operand, as the soundness proofs use it:
+`Negate` of any unknown number (whatever its refinement) and of `DynamicVal` is the
+UNREFINED not-null unknown number — the operand's range is dropped, not mirrored;
+`Absolute` answers "not null, ≥ 0".  (A mirrored range `[-hi, -lo]` would have to
+swap the inclusiveness flags together with the bounds; the seeded change
+C01-negate-range-swapped-inclusivity breaks this theorem's correspondence.) -/
+theorem neg_abs_of_unknown (t : Ty) (r : Rfn) (ht : t = .number ∨ t = .dyn) :
+    Value.neg ⟨t, .unk r⟩ = .ok unkNumNotNull ∧ Value.abs ⟨t, .unk r⟩ = .ok absUnk := by
+  rcases ht with rfl | rfl <;> exact ⟨rfl, rfl⟩
+
+/-- … and that answer admits the negation of everything the operand admits, in
+particular a number sitting on an inclusive end of a half-open range -/
+theorem neg_range_example :
+    CoversX ⟨.number, .unk (.num .u (some ⟨Num.ofInt 0, false⟩) (some ⟨Num.ofInt 10, true⟩))⟩ (intVal 10) = true ∧
+    Value.neg ⟨.number, .unk (.num .u (some ⟨Num.ofInt 0, false⟩) (some ⟨Num.ofInt 10, true⟩))⟩ = .ok unkNumNotNull ∧
+    Value.neg (intVal 10) = .ok (intVal (-10)) ∧ Covers unkNumNotNull (intVal (-10)) = true ∧
+    -- the mirrored range with the flags NOT swapped would exclude it
+    Covers ⟨.number, .unk (.num .f (some ⟨Num.ofInt (-10), false⟩) (some ⟨Num.ofInt 0, true⟩))⟩ (intVal (-10)) = false :=
+  ⟨by decide, by rfl, by rfl, by decide, by decide⟩
+
 theorem sound_div : Sound₂ Value.div :=
   sound_binMarks (fun o₁ o₂ w₁ w₂ r hk₁ hk₂ a b c d _ _ _ _ hc₁ hc₂ ho =>
     divU_sound o₁ o₂ w₁ w₂ r trivial hk₁ hk₂ a b c d hc₁ hc₂ ho)
@@ -223,12 +249,16 @@ theorem length_unknown_object_regression :
     Value.length ⟨.object ["a"] [.string] [false], .unk (.nullable .f)⟩ = .ok (intVal 1) :=
   ⟨by rfl, by rfl, by rfl⟩
 
-/-- Lists, maps, tuples and objects (sets are the frontier): the length of a
-weakened operand is the concrete length, or a range from its length refinement
-that holds it.  `hwdyn`: an operand of the placeholder type is unknown
-(`DynamicVal`), not the null of that type. -/
+/-- Lists, maps, tuples, objects and sets: the length of a weakened operand is the
+concrete length, or a range from its length refinement — or, for a set holding
+unknowns, the range `[1, number of members]` — that holds it.  `hwdyn`: an operand of
+the placeholder type is unknown (`DynamicVal`), not the null of that type.
+`SetCountOK` (decidable, `true` for everything but sets): a weakened set ALL of whose
+members are wholly known has as many members as the set it stands for — the one fact
+about sets that `CoversX` (several members may stand for one) does not give, true of
+every set cty builds (no two equivalent members, property C06). -/
 theorem sound_length_partial (o w r : Value) (hk : o.whollyKnown = true) (hfo : o.wfc = true) (hfw : w.wfc = true)
-    (hwdyn : w.ty = .dyn → w.isKnown = false) (hset : ∀ e, o.ty ≠ .set e)
+    (hwdyn : w.ty = .dyn → w.isKnown = false) (hcount : SetCountOK w.unmark o.unmark = true)
     (hc : CoversX w o = true) (ho : Value.length o = .ok r) :
     ∃ r', Value.length w = .ok r' ∧ Covers r' r = true := by
   unfold Value.length at ho ⊢
@@ -242,14 +272,43 @@ theorem sound_length_partial (o w r : Value) (hk : o.whollyKnown = true) (hfo : 
     cases p <;> try (simp_all [Value.unmark, Payload.unmark1, Value.isKnown, Payload.isKnown, Value.isMarked, Payload.isMarked]; done)
     rename_i ms q
     cases q <;> simp_all [Value.unmark, Payload.unmark1, Value.isKnown, Payload.isKnown, Value.isMarked, Payload.isMarked]
-  obtain ⟨r', h1, h2⟩ := lengthU_sound_partial o.unmark w.unmark r0 (by rw [whollyKnown_unmark]; exact hk)
-    (flat_unmark (wfc_flat hfo)) (flat_unmark (wfc_flat hfw)) (wfc_unmark hfo)
-    (by rw [coversX_unmark_left, coversX_unmark_right]; exact hc) hwk hset h0
+  have hcx : CoversX w.unmark o.unmark = true := by rw [coversX_unmark_left, coversX_unmark_right]; exact hc
+  have hko : o.unmark.whollyKnown = true := by rw [whollyKnown_unmark]; exact hk
+  obtain ⟨r', h1, h2⟩ : ∃ r', lengthU w.unmark = .ok r' ∧ Covers r' r0 = true := by
+    by_cases hs : ∃ e, o.unmark.ty = .set e
+    · obtain ⟨e, he⟩ := hs
+      exact lengthU_sound_set o.unmark w.unmark r0 he hko (flat_unmark (wfc_flat hfo)) (flat_unmark (wfc_flat hfw))
+        (wfc_unmark hfo) hcx hwk hcount h0
+    · exact lengthU_sound_partial o.unmark w.unmark r0 hko
+        (flat_unmark (wfc_flat hfo)) (flat_unmark (wfc_flat hfw)) (wfc_unmark hfo) hcx hwk (fun e h => hs ⟨e, h⟩) h0
   refine ⟨_, by rw [h1]; rfl, ?_⟩
   by_cases ha : o.isMarked = true <;> by_cases hb : w.isMarked = true <;>
     simp [ha, hb, covers_withMarks_left, covers_withMarks_right, h2]
 
+/-- sets: `{1, 2}` as `{unknown ≥ 1, 2}` has a length in `[1, 2]`; as an unknown set of
+1 to 3 members a length in `[1, 3]`; both admit 2 -/
+theorem length_set_examples :
+    Value.length ⟨.set .number, .sset [1, 2] [.n (Num.ofInt 1), .n (Num.ofInt 2)]⟩ = .ok (intVal 2) ∧
+    Value.length ⟨.set .number, .sset [0, 2] [.unk (.num .f (some ⟨Num.ofInt 1, true⟩) none), .n (Num.ofInt 2)]⟩
+      = .ok ⟨.number, .unk (.num .f (some ⟨Num.ofInt 1, true⟩) (some ⟨Num.ofInt 2, true⟩))⟩ ∧
+    CoversX ⟨.set .number, .sset [0, 2] [.unk (.num .f (some ⟨Num.ofInt 1, true⟩) none), .n (Num.ofInt 2)]⟩
+      ⟨.set .number, .sset [1, 2] [.n (Num.ofInt 1), .n (Num.ofInt 2)]⟩ = true ∧
+    SetCountOK ⟨.set .number, .sset [0, 2] [.unk (.num .f (some ⟨Num.ofInt 1, true⟩) none), .n (Num.ofInt 2)]⟩
+      ⟨.set .number, .sset [1, 2] [.n (Num.ofInt 1), .n (Num.ofInt 2)]⟩ = true ∧
+    Covers ⟨.number, .unk (.num .f (some ⟨Num.ofInt 1, true⟩) (some ⟨Num.ofInt 2, true⟩))⟩ (intVal 2) = true :=
+  ⟨by rfl, by rfl, by decide, by decide, by decide⟩
+
 /-! ## Soundness: Equals -/
+
+/-- The model of `Equals` has one outcome about which `Sound₂` says nothing:
+`.unmodelled`.  It arises in two places — equality of capsule values (a callback of the
+application: a parameter, not modelled) and exhaustion of the fuel that makes the
+recursion structural.  The second NEVER happens: the fuel `Value.equals` picks (nesting
+depth + 1) suffices for every pair of types and payloads, known or not.  So an
+`.unmodelled` comparison is a comparison of capsules, and the soundness theorems are not
+true "for the wrong reason" on anything else (audit C01 item 5). -/
+theorem equals_unmodelled_only_for_capsules (a b : Value) (ha : a.v.noCaps = true) (hb : b.v.noCaps = true) :
+    Value.equals a b ≠ .unmodelled := equals_ne_unmodelled a b ha hb
 
 /-- FALSE in general: a known list / tuple / object holding `cty.DynamicVal` (so
 its type contains the placeholder) compared with an unknown is answered False
@@ -286,6 +345,50 @@ theorem sound_equals_partial (o₁ o₂ w₁ w₂ r : Value) (hk₁ : o₁.wholl
     ∃ r', Value.equals w₁ w₂ = .ok r' ∧ Covers r' r = true :=
   equals_sound_partial o₁ o₂ w₁ w₂ r hk₁ hk₂ hf₁ hf₂ hw₁ hw₂ hc₁ hc₂ ho
 
+/-- Objects and maps (audit C01, missing theorem (c)): two objects of one object type
+whose attribute types are in the fragment above, or two maps of one map type whose
+element type is, with attributes / elements weakened in place at any depth to unknowns
+of any refinement.  The object and map branches of `Equals` do not stop at the first
+unknown comparison — Go ranges over a map, so a known-unequal attribute must decide
+whichever is visited first — they go on and answer "unknown" only if no attribute is
+known to differ; the proof therefore also needs that `Equals` is total on the wholly
+known members the concrete call never looked at (`eqF_total`).  `EqObjOperand` /
+`EqMapOperand`: well-formed type over the fragment, known non-null payload, members as
+the types dictate, numbers integers.  `EqObjWeak` / `EqMapWeak`: same type, a known
+payload (the operand replaced as a whole by an unknown is NOT covered here). -/
+theorem sound_equals_object_partial (o₁ o₂ w₁ w₂ r : Value) (hk₁ : o₁.whollyKnown = true) (hk₂ : o₂.whollyKnown = true)
+    (hf₁ : EqObjOperand o₁) (hf₂ : EqObjOperand o₂) (hty : o₁.ty = o₂.ty) (hw₁ : EqObjWeak w₁ o₁) (hw₂ : EqObjWeak w₂ o₂)
+    (hc₁ : CoversX w₁ o₁ = true) (hc₂ : CoversX w₂ o₂ = true) (ho : Value.equals o₁ o₂ = .ok r) :
+    ∃ r', Value.equals w₁ w₂ = .ok r' ∧ Covers r' r = true :=
+  equals_sound_object o₁ o₂ w₁ w₂ r hk₁ hk₂ hf₁ hf₂ hty hw₁ hw₂ hc₁ hc₂ ho
+
+theorem sound_equals_map_partial (o₁ o₂ w₁ w₂ r : Value) (hk₁ : o₁.whollyKnown = true) (hk₂ : o₂.whollyKnown = true)
+    (hf₁ : EqMapOperand o₁) (hf₂ : EqMapOperand o₂) (hty : o₁.ty = o₂.ty) (hw₁ : EqMapWeak w₁ o₁) (hw₂ : EqMapWeak w₂ o₂)
+    (hc₁ : CoversX w₁ o₁ = true) (hc₂ : CoversX w₂ o₂ = true) (ho : Value.equals o₁ o₂ = .ok r) :
+    ∃ r', Value.equals w₁ w₂ = .ok r' ∧ Covers r' r = true :=
+  equals_sound_map o₁ o₂ w₁ w₂ r hk₁ hk₂ hf₁ hf₂ hty hw₁ hw₂ hc₁ hc₂ ho
+
+/-- the instance that shows why the order of the attributes cannot matter: `{a = 1, b = 2}`
+against `{a = 1, b = 3}` is False; with `a` weakened to an unknown number on the left the
+first comparison is unknown, the second still decides: False (not "unknown") -/
+theorem equals_object_examples :
+    Value.equals ⟨.object ["a", "b"] [.number, .number] [false, false], .smap ["a", "b"] [.n (Num.ofInt 1), .n (Num.ofInt 2)]⟩
+      ⟨.object ["a", "b"] [.number, .number] [false, false], .smap ["a", "b"] [.n (Num.ofInt 1), .n (Num.ofInt 3)]⟩ = .ok (boolVal false) ∧
+    Value.equals ⟨.object ["a", "b"] [.number, .number] [false, false], .smap ["a", "b"] [.unk .unref, .n (Num.ofInt 2)]⟩
+      ⟨.object ["a", "b"] [.number, .number] [false, false], .smap ["a", "b"] [.n (Num.ofInt 1), .n (Num.ofInt 3)]⟩ = .ok (boolVal false) ∧
+    Value.equals ⟨.object ["a", "b"] [.number, .number] [false, false], .smap ["a", "b"] [.unk .unref, .n (Num.ofInt 2)]⟩
+      ⟨.object ["a", "b"] [.number, .number] [false, false], .smap ["a", "b"] [.n (Num.ofInt 1), .n (Num.ofInt 2)]⟩ = .ok unkBool ∧
+    Value.equals ⟨.map .number, .smap ["k"] [.unk (.num .f (some ⟨Num.ofInt 5, true⟩) none)]⟩
+      ⟨.map .number, .smap ["k"] [.n (Num.ofInt 4)]⟩ = .ok (boolVal false) :=
+  ⟨by rfl, by rfl, by rfl, by rfl⟩
+
+example : EqObjOperand ⟨.object ["a", "b"] [.number, .list .bool] [false, false], .smap ["a", "b"] [.n (Num.ofInt 1), .seq [.b true]]⟩ :=
+  ⟨_, _, _, _, _, rfl, by decide, by decide, rfl, by decide⟩
+example : EqObjWeak ⟨.object ["a", "b"] [.number, .list .bool] [false, false], .smap ["a", "b"] [.unk (.num .f none none), .seq [.unk .unref]]⟩
+    ⟨.object ["a", "b"] [.number, .list .bool] [false, false], .smap ["a", "b"] [.n (Num.ofInt 1), .seq [.b true]]⟩ :=
+  ⟨rfl, _, _, rfl, fun ns ts opt h => by cases h; decide⟩
+example : EqMapOperand ⟨.map .number, .smap ["k"] [.n (Num.ofInt 4)]⟩ := ⟨_, _, _, rfl, by decide, rfl, by decide⟩
+
 /-- NotEqual, LessThanOrEqualTo, GreaterThanOrEqualTo are compositions
 (`Equals(…).Not()`, `LessThan(…).Or(Equals(…))`): sound on the same fragment. -/
 theorem sound_notEqual_partial (o₁ o₂ w₁ w₂ r : Value) (hk₁ : o₁.whollyKnown = true) (hk₂ : o₂.whollyKnown = true)
@@ -320,6 +423,18 @@ theorem equals_set_never_definite (a b r : Value) {e : Ty} {ix iy : List Int} {x
     (h : Value.equals a b = .ok r) : r.isKnown = false :=
   equals_set_unknown a b r hta hte hpa hpb hlx hly hnk h
 
+/-- … and that unknown answer admits whatever `Equals` answers on the sets the two
+operands stand for: soundness of `Equals` on two sets of the same type as soon as a
+member of either weakened set is not wholly known (no hypothesis on how the weakened
+sets relate to the concrete ones is needed). -/
+theorem sound_equals_set_unknown_member (w₁ w₂ o₁ o₂ r' r : Value) {e : Ty} {ix iy : List Int} {xs ys : List Payload}
+    (hta : w₁.ty = .set e) (hte : Ty.equals (.set e) w₂.ty = true)
+    (hpa : w₁.v.stripMarks = .sset ix xs) (hpb : w₂.v.stripMarks = .sset iy ys)
+    (hlx : ix.length = xs.length) (hly : iy.length = ys.length)
+    (hnk : Payload.whollyKnownL xs = false ∨ Payload.whollyKnownL ys = false)
+    (hw : Value.equals w₁ w₂ = .ok r') (ho : Value.equals o₁ o₂ = .ok r) : Covers r' r = true :=
+  equals_unknown_covers hw (equals_set_unknown w₁ w₂ r' hta hte hpa hpb hlx hly hnk hw) ho
+
 /-- the former counterexample (a set against a set holding `(unknown)`), now a regression case -/
 theorem equals_set_regression :
     Value.equals ⟨.set (.tuple [.bool]), .sset [5] [.seq [.b true]]⟩ ⟨.set (.tuple [.bool]), .sset [5] [.seq [.b true]]⟩
@@ -329,7 +444,7 @@ theorem equals_set_regression :
     Covers unkBool (boolVal true) = true :=
   ⟨by rfl, by rfl, by decide⟩
 
-/-! ## Soundness: HasElement (counterexample only — sets are the frontier) -/
+/-! ## Soundness: HasElement (counterexample for the full statement; sound for operands replaced as a whole) -/
 
 /-- FALSE: a known candidate element holding an unknown is answered False although
 the set holds the element it stands for (DESIGN §8 #1). -/
@@ -342,6 +457,32 @@ theorem sound_hasElement_counterexample :
       = .ok (boolVal false) ∧
     CoversX ⟨.list .number, .seq [.unk .unref]⟩ ⟨.list .number, .seq [.n (Num.ofInt 1)]⟩ = true :=
   ⟨by rfl, by rfl, by decide⟩
+
+/-- The positive part: HasElement is sound when each operand is kept as it is or
+replaced AS A WHOLE — the set by any unknown (refined or not) or `DynamicVal`, the
+candidate element by an unknown of its own type or by `DynamicVal` (`eh'` is the hash
+oracle of the weakened needle: the concrete one when the needle is kept, anything
+otherwise).  The weakened call then answers "unknown", or the same definite False
+from the type guard.  What is excluded is exactly what is false or unproved: a KNOWN
+needle holding an unknown inside and type constraints with the placeholder inside (the
+two recorded findings, `sound_hasElement_counterexample`), and members of the set
+weakened in place (frontier: searched by the harness, no theorem). -/
+theorem sound_hasElement_partial (s e ws we r : Value) (eh eh' : Option Int)
+    (hgs : ws.wfc = true) (hge : we.wfc = true)
+    (hs : ws = s ∨ ws.isKnown = false)
+    (he : (we = e ∧ eh' = eh) ∨ (we.isKnown = false ∧ (we.ty = e.ty ∨ we.ty = .dyn)))
+    (ho : Value.hasElement s e eh = .ok r) : ∃ r', Value.hasElement ws we eh' = .ok r' ∧ Covers r' r = true :=
+  hasElement_sound_whole s e ws we r eh eh' (wfc_flat hgs) (wfc_flat hge) hs he ho
+
+/-- non-trivial instances: the set `{[1]}` replaced by an unknown set of lists, the
+needle `[1]` by an unknown list, by `DynamicVal`; each admits the concrete answer True -/
+theorem sound_hasElement_examples :
+    Value.hasElement ⟨.set (.list .number), .sset [7] [.seq [.n (Num.ofInt 1)]]⟩ ⟨.list .number, .seq [.n (Num.ofInt 1)]⟩ (some 7)
+      = .ok (boolVal true) ∧
+    Value.hasElement ⟨.set (.list .number), .unk (.coll .f 1 3)⟩ ⟨.list .number, .seq [.n (Num.ofInt 1)]⟩ (some 7) = .ok unkBool ∧
+    Value.hasElement ⟨.set (.list .number), .sset [7] [.seq [.n (Num.ofInt 1)]]⟩ ⟨.list .number, .unk .unref⟩ none = .ok unkBool ∧
+    Value.hasElement ⟨.set (.list .number), .sset [7] [.seq [.n (Num.ofInt 1)]]⟩ dynVal none = .ok unkBool ∧
+    Covers unkBool (boolVal true) = true := ⟨by rfl, by rfl, by rfl, by rfl, by decide⟩
 
 /-! ## `ValueRange.Includes` answers False only for what the range does not admit -/
 
@@ -407,18 +548,47 @@ theorem soundAdd_false : ¬ SoundAdd := by
   rw [c4] at h2
   cases h2
 
-/-- Add is sound whenever no corner rounds: `CornerExactAdd` (decidable) says that
-`l₁+l₂`, `h₁+h₂` and `x+y` are exact (the exact sum fits the larger operand
-precision) and that a result range cty collapses to a known number is one value. -/
+/-- The mirror image of `add_mixed_precision_counterexample` (same root cause, the
+recorded finding range-bound-rounded-at-lower-precision): here the BOUND is the finer
+number.  unknown ≥ 1.0000000000000001 (a 512-bit bound, 1+2^-60) standing for the
+float64 1+2^-52, plus the float64 1: the concrete sum 2+2^-52 is a tie at 53 bits and
+rounds to 2; the corner 1+2^-60+1 is exact at 512 bits, so the weakened result is
+bounded BELOW by 2+2^-60 > 2.  Directed rounding of the corners would not help. -/
+theorem add_bound_finer_than_value_counterexample :
+    Value.add ⟨.number, .n (.fin false 4503599627370497 (-52) 53)⟩ ⟨.number, .n (.fin false 1 0 53)⟩
+      = .ok ⟨.number, .n (.fin false 1 1 53)⟩ ∧
+    Value.add ⟨.number, .unk (.num .u (some ⟨.fin false 1152921504606846977 (-60) 512, true⟩) none)⟩ ⟨.number, .n (.fin false 1 0 53)⟩
+      = .ok ⟨.number, .unk (.num .f (some ⟨.fin false 2305843009213693953 (-60) 512, true⟩) none)⟩ ∧
+    CoversX ⟨.number, .unk (.num .u (some ⟨.fin false 1152921504606846977 (-60) 512, true⟩) none)⟩
+      ⟨.number, .n (.fin false 4503599627370497 (-52) 53)⟩ = true ∧
+    Covers ⟨.number, .unk (.num .f (some ⟨.fin false 2305843009213693953 (-60) 512, true⟩) none)⟩
+      ⟨.number, .n (.fin false 1 1 53)⟩ = false ∧
+    CornerSafeAdd ⟨.number, .unk (.num .u (some ⟨.fin false 1152921504606846977 (-60) 512, true⟩) none)⟩ ⟨.number, .n (.fin false 1 0 53)⟩
+      ⟨.number, .n (.fin false 4503599627370497 (-52) 53)⟩ ⟨.number, .n (.fin false 1 0 53)⟩ = false :=
+  ⟨by rfl, by rfl, by decide, by decide, by decide⟩
+
+/-- Add is sound whenever the rounding of a corner cannot overtake the rounding of
+the concrete sum: `CornerSafeAdd` (decidable).  `big.Float.Add` rounds to the larger
+precision of its two operands; rounding to nearest is monotone, so the lower corner
+`l₁+l₂` stays below `x+y` (and `x+y` below `h₁+h₂`) when BOTH SUMS ARE ROUNDED AT THE
+SAME PRECISION — whether or not they are rounded (every number parsed from text or
+JSON carries 512 bits, so this is the ordinary case) — or when one of the two exact
+sums is representable at both precisions, or neither sum is rounded (the former side
+condition `CornerExactAdd`: `cornerSafeAdd_of_exact`).  Bounds may be infinite.
+Outside `CornerSafeAdd` the statement is false both ways:
+`add_mixed_precision_counterexample` (bound coarser than the value),
+`add_bound_finer_than_value_counterexample` (bound finer than the value).
+Last conjunct of the side condition: a result range that cty collapses to a known
+number is one value. -/
 theorem sound_add_partial (o₁ o₂ w₁ w₂ r : Value) (hk₁ : o₁.whollyKnown = true) (hk₂ : o₂.whollyKnown = true)
     (hf₁ : o₁.wfc = true) (hf₂ : o₂.wfc = true) (hg₁ : w₁.wfc = true) (hg₂ : w₂.wfc = true)
     (hc₁ : CoversX w₁ o₁ = true) (hc₂ : CoversX w₂ o₂ = true)
-    (hside : CornerExactAdd w₁.unmark w₂.unmark o₁.unmark o₂.unmark = true)
+    (hside : CornerSafeAdd w₁.unmark w₂.unmark o₁.unmark o₂.unmark = true)
     (ho : Value.add o₁ o₂ = .ok r) : ∃ r', Value.add w₁ w₂ = .ok r' ∧ Covers r' r = true := by
   unfold Value.add at ho ⊢
   rw [binMarks_eq] at ho ⊢
   obtain ⟨r0, h0, rfl⟩ := res_map_ok ho
-  obtain ⟨r', h1, h2⟩ := addU_sound_partial o₁.unmark o₂.unmark w₁.unmark w₂.unmark r0
+  obtain ⟨r', h1, h2⟩ := addU_sound_safe o₁.unmark o₂.unmark w₁.unmark w₂.unmark r0
     (by rw [whollyKnown_unmark]; exact hk₁) (by rw [whollyKnown_unmark]; exact hk₂)
     (flat_unmark (wfc_flat hf₁)) (flat_unmark (wfc_flat hf₂)) (flat_unmark (wfc_flat hg₁)) (flat_unmark (wfc_flat hg₂))
     (by rw [coversX_unmark_left, coversX_unmark_right]; exact hc₁)
@@ -431,12 +601,12 @@ theorem sound_add_partial (o₁ o₂ w₁ w₂ r : Value) (hk₁ : o₁.whollyKn
 theorem sound_sub_partial (o₁ o₂ w₁ w₂ r : Value) (hk₁ : o₁.whollyKnown = true) (hk₂ : o₂.whollyKnown = true)
     (hf₁ : o₁.wfc = true) (hf₂ : o₂.wfc = true) (hg₁ : w₁.wfc = true) (hg₂ : w₂.wfc = true)
     (hc₁ : CoversX w₁ o₁ = true) (hc₂ : CoversX w₂ o₂ = true)
-    (hside : CornerExactSub w₁.unmark w₂.unmark o₁.unmark o₂.unmark = true)
+    (hside : CornerSafeSub w₁.unmark w₂.unmark o₁.unmark o₂.unmark = true)
     (ho : Value.sub o₁ o₂ = .ok r) : ∃ r', Value.sub w₁ w₂ = .ok r' ∧ Covers r' r = true := by
   unfold Value.sub at ho ⊢
   rw [binMarks_eq] at ho ⊢
   obtain ⟨r0, h0, rfl⟩ := res_map_ok ho
-  obtain ⟨r', h1, h2⟩ := subU_sound_partial o₁.unmark o₂.unmark w₁.unmark w₂.unmark r0
+  obtain ⟨r', h1, h2⟩ := subU_sound_safe o₁.unmark o₂.unmark w₁.unmark w₂.unmark r0
     (by rw [whollyKnown_unmark]; exact hk₁) (by rw [whollyKnown_unmark]; exact hk₂)
     (flat_unmark (wfc_flat hf₁)) (flat_unmark (wfc_flat hf₂)) (flat_unmark (wfc_flat hg₁)) (flat_unmark (wfc_flat hg₂))
     (by rw [coversX_unmark_left, coversX_unmark_right]; exact hc₁)
@@ -445,9 +615,18 @@ theorem sound_sub_partial (o₁ o₂ w₁ w₂ r : Value) (hk₁ : o₁.whollyKn
   by_cases ha : (o₁.isMarked || o₂.isMarked) = true <;> by_cases hb : (w₁.isMarked || w₂.isMarked) = true <;>
     simp_all [covers_withMarks_left, covers_withMarks_right]
 
+/-- The side condition in plain terms: it holds as soon as the two sums are rounded at
+the same precision (`max` of the operand precisions), and it is implied by the former
+"nothing is rounded" condition. -/
+theorem add_side_condition_cases :
+    (∀ u1 u2 x y : Num, max u1.prec u2.prec = max x.prec y.prec → Num.addSafe u1 u2 x y = true) ∧
+    (∀ w₁ w₂ o₁ o₂ : Value, CornerExactAdd w₁ w₂ o₁ o₂ = true → CornerSafeAdd w₁ w₂ o₁ o₂ = true) ∧
+    (∀ w₁ w₂ o₁ o₂ : Value, CornerExactSub w₁ w₂ o₁ o₂ = true → CornerSafeSub w₁ w₂ o₁ o₂ = true) :=
+  ⟨fun _ _ _ _ h => addSafe_of_prec_eq h, fun _ _ _ _ h => cornerSafeAdd_of_exact h, fun _ _ _ _ h => cornerSafeSub_of_exact h⟩
+
 /-- FALSE as stated since /repo 6d2fa5e (before, the zero exit was a pointer
 comparison that no value but the package value `cty.Zero` itself could take):
-Multiply under the side condition `CornerExactMul` alone.  The corner products of
+Multiply under the side condition `CohMul` alone.  The corner products of
 `numericRangeArithmetic` are calls of `Value.Multiply` on the BOUNDS; the bounds of
 a dynamically typed operand are unknown numbers, so such a corner is a short circuit
 of its own and now takes the zero exit when the other bound is a zero.  A nullable
@@ -461,7 +640,7 @@ def SoundMulCornerExact : Prop :=
   ∀ (o₁ o₂ w₁ w₂ r : Value), o₁.whollyKnown = true → o₂.whollyKnown = true →
     o₁.wfc = true → o₂.wfc = true → w₁.wfc = true → w₂.wfc = true →
     CoversX w₁ o₁ = true → CoversX w₂ o₂ = true →
-    CornerExactMul w₁.unmark w₂.unmark o₁.unmark o₂.unmark = true →
+    CohMul w₁.unmark w₂.unmark = true →
     Value.mul o₁ o₂ = .ok r → ∃ r', Value.mul w₁ w₂ = .ok r' ∧ Covers r' r = true
 
 /-- null of the dynamic pseudo-type times null number is an unknown (non-null) number;
@@ -471,8 +650,7 @@ theorem mul_null_zero_bounds_counterexample :
     Value.mul ⟨.dyn, .null⟩ ⟨.number, .unk (.num .u (some ⟨Num.ofInt 0, true⟩) (some ⟨Num.ofInt 0, true⟩))⟩ = .ok zeroVal ∧
     CoversX ⟨.number, .unk (.num .u (some ⟨Num.ofInt 0, true⟩) (some ⟨Num.ofInt 0, true⟩))⟩ ⟨.number, .null⟩ = true ∧
     Covers zeroVal unkNumNotNull = false ∧
-    CornerExactMul ⟨.dyn, .null⟩ ⟨.number, .unk (.num .u (some ⟨Num.ofInt 0, true⟩) (some ⟨Num.ofInt 0, true⟩))⟩
-      ⟨.dyn, .null⟩ ⟨.number, .null⟩ = true ∧
+    CohMul ⟨.dyn, .null⟩ ⟨.number, .unk (.num .u (some ⟨Num.ofInt 0, true⟩) (some ⟨Num.ofInt 0, true⟩))⟩ = true ∧
     ZeroBoundsNumber ⟨.number, .unk (.num .u (some ⟨Num.ofInt 0, true⟩) (some ⟨Num.ofInt 0, true⟩))⟩ ⟨.number, .null⟩ = false :=
   ⟨by rfl, by rfl, by decide, by decide, by decide, by decide⟩
 
@@ -486,26 +664,32 @@ theorem soundMulCornerExact_false : ¬ SoundMulCornerExact := by
   rw [c4] at h2
   cases h2
 
-/-- Multiply: sound when both weakened operands have finite bounds on both sides
-and no corner product exceeds the 512 bits cty multiplies at (`CornerExactMul`,
-decidable), and a weakened operand whose two bounds are zeros stands for a number,
-not for a null (`ZeroBoundsNumber`, decidable; it only bites next to an operand of
-the dynamic pseudo-type, every other call on a null panics).  Multiply keeps every
-bit the product needs, so unlike Add the bounds' own precision cannot spoil the
-result; unbounded sides (corners at ±∞) are not covered by this theorem.  Both the
-zero exit of the call itself and the zero exit of its corner products (/repo
-6d2fa5e) are covered: a known zero, or an unknown confined to `[0, 0]`, times an
-operand that multiplies without a panic is a zero. -/
+/-- Multiply is sound for every weakening — unrefined, half-bounded or two-sided
+unknowns, `DynamicVal`, products that are rounded or not — under two decidable side
+conditions that exclude exactly what is known to be false or unknown:
+`ZeroBoundsNumber` (a weakened operand whose two bounds are zeros stands for a number,
+not for a null; it only bites next to an operand of the dynamic pseudo-type, see
+`mul_null_zero_bounds_counterexample`) and `CohMul` (a result range that cty collapses
+to a known number because its two ends are `rawNumberEqual` is one value; always so
+when the ends are integers).  Why no precision condition is needed, unlike Add: cty
+multiplies at 512 bits whatever the operands' precisions are and keeps every bit of
+that product, so corner products and the concrete product are rounded at the same
+precision, and rounding to nearest is monotone (`Num.rndV_mono`).  Infinite bounds:
+the product over a box of extended numbers lies between the smallest and the largest
+corner product whenever those are defined (`D01.Ext.box_lower/box_upper`; an
+undefined corner `0·∞` panics in Go, is caught, and makes the result unbounded).
+Both the zero exit of the call itself and the zero exit of its corner products
+(/repo 6d2fa5e) are covered. -/
 theorem sound_mul_partial (o₁ o₂ w₁ w₂ r : Value) (hk₁ : o₁.whollyKnown = true) (hk₂ : o₂.whollyKnown = true)
     (hf₁ : o₁.wfc = true) (hf₂ : o₂.wfc = true) (hg₁ : w₁.wfc = true) (hg₂ : w₂.wfc = true)
     (hc₁ : CoversX w₁ o₁ = true) (hc₂ : CoversX w₂ o₂ = true)
-    (hside : CornerExactMul w₁.unmark w₂.unmark o₁.unmark o₂.unmark = true)
+    (hside : CohMul w₁.unmark w₂.unmark = true)
     (hzb₁ : ZeroBoundsNumber w₁.unmark o₁.unmark = true) (hzb₂ : ZeroBoundsNumber w₂.unmark o₂.unmark = true)
     (ho : Value.mul o₁ o₂ = .ok r) : ∃ r', Value.mul w₁ w₂ = .ok r' ∧ Covers r' r = true := by
   unfold Value.mul at ho ⊢
   rw [binMarks_eq] at ho ⊢
   obtain ⟨r0, h0, rfl⟩ := res_map_ok ho
-  obtain ⟨r', h1, h2⟩ := mulU_sound_partial o₁.unmark o₂.unmark w₁.unmark w₂.unmark r0
+  obtain ⟨r', h1, h2⟩ := mulU_sound_coh o₁.unmark o₂.unmark w₁.unmark w₂.unmark r0
     (by rw [whollyKnown_unmark]; exact hk₁) (by rw [whollyKnown_unmark]; exact hk₂)
     (flat_unmark (wfc_flat hf₁)) (flat_unmark (wfc_flat hf₂)) (flat_unmark (wfc_flat hg₁)) (flat_unmark (wfc_flat hg₂))
     (by rw [coversX_unmark_left, coversX_unmark_right]; exact hc₁)
@@ -514,10 +698,38 @@ theorem sound_mul_partial (o₁ o₂ w₁ w₂ r : Value) (hk₁ : o₁.whollyKn
   by_cases ha : (o₁.isMarked || o₂.isMarked) = true <;> by_cases hb : (w₁.isMarked || w₂.isMarked) = true <;>
     simp_all [covers_withMarks_left, covers_withMarks_right]
 
+/-- The "collapsed range is one value" conjunct of `CohMul` / `CornerSafeAdd` is only
+about NON-INTEGER ends: for integer ends cty's `rawNumberEqual` is exact comparison, and a
+missing or infinite end never collapses. -/
+theorem coh_of_integer_ends (m M : Num) (hm : m.isInt = true) (hM : M.isInt = true) :
+    cohOK (some m) (some M) = true ∧ cohOK none (some M) = true ∧ cohOK (some m) none = true := by
+  refine ⟨?_, rfl, rfl⟩
+  simp only [cohOK, isInt_coh hm hM]
+  cases (Num.cmp m M == 0) <;> rfl
+
 /-- Without null operands the second side condition is vacuous: `ZeroBoundsNumber`
 holds of every weakening of a number. -/
 theorem zeroBoundsNumber_of_number (w : Value) (x : Num) : ZeroBoundsNumber w (numVal x) = true := by
   simp [ZeroBoundsNumber, numVal, asNum]
+
+/-- The base case of the property's quantifier — an UNREFINED unknown number (also
+`UnknownVal(Number).RefineNotNull()`, and `DynamicVal`) in place of a number, times a
+known number: sound with no side condition.  (The result is the unrefined not-null
+unknown number, or `cty.Zero` when the known factor is a zero.) -/
+theorem sound_mul_unrefined (x y : Num) (w₁ r : Value)
+    (hw : w₁ = ⟨.number, .unk .unref⟩ ∨ w₁ = ⟨.number, .unk (.nullable .f)⟩ ∨ w₁ = dynVal)
+    (ho : Value.mul (numVal x) (numVal y) = .ok r) :
+    ∃ r', Value.mul w₁ (numVal y) = .ok r' ∧ Covers r' r = true := by
+  have hc₂ : CoversX (numVal y) (numVal y) = true := by
+    simp [CoversX, CoversG, numVal, Ty.matches, Payload.stripMarks, Cov.coversP, Cov.numEq]
+  have hwf : ∀ z : Num, (numVal z).wfc = true := fun z => rfl
+  rcases hw with rfl | rfl | rfl
+  · exact sound_mul_partial (numVal x) (numVal y) _ (numVal y) r rfl rfl (hwf x) (hwf y) (by decide) (hwf y) (by rfl) hc₂
+      (cohMul_of_unbounded (by rfl)) (zeroBoundsNumber_of_number _ x) (zeroBoundsNumber_of_number _ y) ho
+  · exact sound_mul_partial (numVal x) (numVal y) _ (numVal y) r rfl rfl (hwf x) (hwf y) (by decide) (hwf y) (by rfl) hc₂
+      (cohMul_of_unbounded (by rfl)) (zeroBoundsNumber_of_number _ x) (zeroBoundsNumber_of_number _ y) ho
+  · exact sound_mul_partial (numVal x) (numVal y) _ (numVal y) r rfl rfl (hwf x) (hwf y) (by decide) (hwf y) (by rfl) hc₂
+      (by rfl) (zeroBoundsNumber_of_number _ x) (zeroBoundsNumber_of_number _ y) ho
 
 /-- Multiply with a KNOWN ZERO among the weakened operands needs no side condition:
 since /repo 6d2fa5e the short circuit answers `cty.Zero` for every zero operand
@@ -557,6 +769,43 @@ theorem mul_zero_exit_examples :
     Value.mul ⟨.number, .unk .unref⟩ ⟨.number, .unk (.num .u (some ⟨Num.ofInt 0, true⟩) (some ⟨Num.ofInt 0, true⟩))⟩
       = .ok unkNumNotNull := ⟨by rfl, by rfl, by rfl, by rfl, by rfl⟩
 
+/-! ## The scope of the three theorems, as the driver evaluates it
+
+`D01.inScope op o₁ o₂ w₁ w₂` (CtyModel/d01Side.lean, executable, core-only) collects
+EVERY hypothesis of `sound_add_partial` / `sound_sub_partial` / `sound_mul_partial`.
+The harness asks the driver for it on every paired Add / Subtract / Multiply run
+(`judge.c01.scope`): the distribution in/out is part of the evidence, and a run that
+is in scope and fails the search predicate on the real code is reported as a
+contradiction of the theorem (never matched with a recorded finding). -/
+theorem in_scope_sound (o₁ o₂ w₁ w₂ r : Value) :
+    (D01.inScope "add" o₁ o₂ w₁ w₂ = some true → Value.add o₁ o₂ = .ok r →
+      ∃ r', Value.add w₁ w₂ = .ok r' ∧ Covers r' r = true) ∧
+    (D01.inScope "sub" o₁ o₂ w₁ w₂ = some true → Value.sub o₁ o₂ = .ok r →
+      ∃ r', Value.sub w₁ w₂ = .ok r' ∧ Covers r' r = true) ∧
+    (D01.inScope "mul" o₁ o₂ w₁ w₂ = some true → Value.mul o₁ o₂ = .ok r →
+      ∃ r', Value.mul w₁ w₂ = .ok r' ∧ Covers r' r = true) := by
+  refine ⟨?_, ?_, ?_⟩ <;> intro h ho <;>
+    simp only [D01.inScope, D01.common, Option.some.injEq, Bool.and_eq_true] at h <;>
+    obtain ⟨⟨⟨⟨⟨⟨⟨⟨k1, k2⟩, f1⟩, f2⟩, g1⟩, g2⟩, c1⟩, c2⟩, hs⟩ := h
+  · rw [D01.sideAdd_eq] at hs
+    exact sound_add_partial o₁ o₂ w₁ w₂ r k1 k2 f1 f2 g1 g2 c1 c2 hs ho
+  · rw [D01.sideSub_eq] at hs
+    exact sound_sub_partial o₁ o₂ w₁ w₂ r k1 k2 f1 f2 g1 g2 c1 c2 hs ho
+  · rw [D01.sideMul_eq] at hs
+    simp only [Bool.and_eq_true] at hs
+    exact sound_mul_partial o₁ o₂ w₁ w₂ r k1 k2 f1 f2 g1 g2 c1 c2 hs.1.1 hs.1.2 hs.2 ho
+
+/-- the same for Length (`judge.c01.scope1 length`) -/
+theorem in_scope_length_sound (o w r : Value) (h : D01.inScopeLength o w = true) (ho : Value.length o = .ok r) :
+    ∃ r', Value.length w = .ok r' ∧ Covers r' r = true := by
+  simp only [D01.inScopeLength, Bool.and_eq_true, Bool.or_eq_true, Bool.not_eq_true'] at h
+  obtain ⟨⟨⟨⟨⟨k, f⟩, g⟩, d⟩, c⟩, cx⟩ := h
+  rw [D01.setCountOK_eq] at c
+  refine sound_length_partial o w r k f g (fun ht => ?_) c cx ho
+  rcases d with d | d
+  · rw [ht] at d; simp [Ty.isDyn] at d
+  · exact d
+
 /-! ## Non-vacuity -/
 example : Weaken ⟨.number, .n (Num.ofInt 5)⟩ ⟨.number, .unk (.num .f (some ⟨Num.ofInt 5, true⟩) none)⟩ :=
   .inside (.toUnk (by
@@ -568,11 +817,22 @@ example : CoversX ⟨.list .number, .seq [.unk (.num .f (some ⟨Num.ofInt 1, fa
 example : EqOperand ⟨.tuple [.number, .list .bool], .seq [.n (Num.ofInt 3), .seq [.b true]]⟩ := ⟨by decide, by decide⟩
 example : (⟨.list .number, .seq [.n (Num.ofInt 2)]⟩ : Value).wfc = true := by decide
 /-- the side condition of `sound_add_partial` holds for ordinary bounds: unknown in [1, 5] plus 2 -/
-example : CornerExactAdd ⟨.number, .unk (.num .f (some ⟨Num.ofInt 1, true⟩) (some ⟨Num.ofInt 5, false⟩))⟩ (intVal 2)
+example : CornerSafeAdd ⟨.number, .unk (.num .f (some ⟨Num.ofInt 1, true⟩) (some ⟨Num.ofInt 5, false⟩))⟩ (intVal 2)
     (intVal 3) (intVal 2) = true := by decide
-/-- … and of `sound_mul_partial`: unknown in [-3, 5] times unknown in [2, 4], standing for -1 · 3 -/
-example : CornerExactMul ⟨.number, .unk (.num .f (some ⟨Num.ofInt (-3), true⟩) (some ⟨Num.ofInt 5, true⟩))⟩
-    ⟨.number, .unk (.num .f (some ⟨Num.ofInt 2, true⟩) (some ⟨Num.ofInt 4, false⟩))⟩ (intVal (-1)) (intVal 3) = true := by decide
+/-- … and for sums that ARE rounded, all at one precision: unknown ≥ 0.1₅₃ standing for 0.1₅₃, plus 0.5₅₃
+(the former side condition `CornerExactAdd` fails here: audit C01 item 2) -/
+example : CornerSafeAdd ⟨.number, .unk (.num .f (some ⟨.fin false 3602879701896397 (-55) 53, true⟩) none)⟩
+      ⟨.number, .n (.fin false 1 (-1) 53)⟩ ⟨.number, .n (.fin false 3602879701896397 (-55) 53)⟩ ⟨.number, .n (.fin false 1 (-1) 53)⟩ = true ∧
+    CornerExactAdd ⟨.number, .unk (.num .f (some ⟨.fin false 3602879701896397 (-55) 53, true⟩) none)⟩
+      ⟨.number, .n (.fin false 1 (-1) 53)⟩ ⟨.number, .n (.fin false 3602879701896397 (-55) 53)⟩ ⟨.number, .n (.fin false 1 (-1) 53)⟩ = false := by
+  decide
+/-- … and of `sound_mul_partial`: unknown in [-3, 5] times unknown in [2, 4]; unknown ≥ 1 times 2; an unrefined
+unknown times 2 (where the former side condition `CornerExactMul` fails: audit C01 item 1) -/
+example : CohMul ⟨.number, .unk (.num .f (some ⟨Num.ofInt (-3), true⟩) (some ⟨Num.ofInt 5, true⟩))⟩
+      ⟨.number, .unk (.num .f (some ⟨Num.ofInt 2, true⟩) (some ⟨Num.ofInt 4, false⟩))⟩ = true ∧
+    CohMul ⟨.number, .unk (.num .u (some ⟨Num.ofInt 1, true⟩) none)⟩ (intVal 2) = true ∧
+    CohMul ⟨.number, .unk .unref⟩ (intVal 2) = true ∧
+    CornerExactMul ⟨.number, .unk .unref⟩ (intVal 2) (intVal 3) (intVal 2) = false := by decide
 /-- … with its second side condition (an unknown in [0, 0] standing for the zero it must be) -/
 example : ZeroBoundsNumber ⟨.number, .unk (.num .u (some ⟨Num.ofInt 0, true⟩) (some ⟨Num.ofInt 0, true⟩))⟩ (intVal 0) = true ∧
     zeroBounded ⟨.number, .unk (.num .u (some ⟨Num.ofInt 0, true⟩) (some ⟨Num.ofInt 0, true⟩))⟩ = true := by decide
